@@ -55,6 +55,11 @@ AGGS = ("sum", "mean", "min", "max", "any", "all", "count")
 MARKERS = {"desc": "descending", "asc": "ascending", "nulls_first": "nulls_first", "nulls_last": "nulls_last"}
 
 
+class NotApplicable(Exception):
+    """the event does not exist on this backend (e.g. collect() is documented for
+    polars-backed tables only); the explorer stops this backend, no verdict"""
+
+
 class StepError(Exception):
     """A real-library call raised; ``index`` is the event index in the history."""
 
@@ -267,6 +272,8 @@ def apply_event(tbl, ev, ctx: Ctx):
     if k == "alias":
         return tbl >> pdt.alias(ev[1] if len(ev) > 1 else None, keep_col_refs=bool(ev[2]) if len(ev) > 2 else False)
     if k == "collect":
+        if ctx.built.backend != "polars":
+            raise NotApplicable("collect() is for polars-backed tables")
         return tbl >> pdt.collect(keep_col_refs=bool(ev[1]) if len(ev) > 1 else True)
     if k == "transfer":
         # materialise the current table as a fresh source and transfer references
